@@ -55,6 +55,13 @@ CLAIMED = {
             "namespace observation must be unchanged; the same export repeated, and on a twin document built by the "
             "same calls, must give identical output (RDF under deterministic blank-node labels, else isomorphic).",
             TECH, NOTE),
+    "C05": ("Full product of 18 record kinds x 4 creation paths x every accepted representation of each formal "
+            "argument (record object, QualifiedName, prefix:local, full URI, Identifier; datetime, ISO string) x "
+            "optional-argument masks, each followed by every sequence of <= 1 (thorough 2) follow-up additions "
+            "(same value, same value in another representation, different value, unparsable value; add_attributes "
+            "dict / pair list / set_time), executed in lock-step with a reference record: normal-form invariant after "
+            "every call, refusal iff a different value is offered for a filled formal attribute, refusals change "
+            "nothing; plus 1320 literal-vs-native cases over every attribute class and entry path.", TECH, NOTE),
 }
 
 NA = {}
